@@ -35,20 +35,43 @@ SPEC = dict(
     test="TestVerifC02",
     level="exploration",
     workers=16,
-    deadline={"quick": 240, "thorough": 2400},
-    rule="every sequence over the alphabet {8 write batches, flush, level compaction, full compaction, out-of-order merge "
-         "(normal/full), close+reopen} up to the depth bound is executed on a fresh real shard; after every step every read "
-         "shape (2 measurements x asc/desc x 4 time ranges x 7 field subsets) is compared with the last-write-wins reference; "
-         "evaluations = executed steps, distinct_nontrivial = distinct (logical content, physical layout shape) states reached",
-    assumptions=["one shard, TSSTORE engine, 2 series, 4 timestamps, 3 typed fields",
-                 "level compaction group size set to 2 and 2-row segments so that short histories reach every layout",
-                 "background compaction worker and time-based flush disabled for determinism (their effects are explicit ops)"],
+    # the narrow stage needs ~35 s idle / ~200 s on a loaded machine, the wide stage ~75 s idle / several minutes loaded
+    deadline={"quick": 1500, "thorough": 3000},
+    rule="two stages, both bounded exhaustive enumeration of histories on a fresh real shard with the last-write-wins reference compared "
+         "after every step. NARROW (2 series, 4 timestamps): every sequence over {8 write batches, a 16-write burst, flush, level compaction, "
+         "full compaction, out-of-order merge, close+reopen} up to the depth bound; every read shape (2 measurements x asc/desc x 4 time "
+         "ranges x 7 field subsets) after every step. WIDE (3 series, 32 timestamps, 8-row segments, range batches of 6..48 rows, values that "
+         "name write, series, timestamp): histories are depth-first trees per plan {files: write-then-flush letters + LC/FC/MO/MS/RO; "
+         "self: three flushed batches of one series then merges of out-of-order files; mem: unflushed batches + F/RO; over: unflushed over "
+         "flushed batches}, children = every letter applicable in the end state of the parent, every history compared in full at its last "
+         "letter (prefixes are histories of their own), under every knob setting of the plan (segments per chunk {65535, 2} x output file "
+         "size {8 GiB, 1 byte} x chunk metas per index item {512, 1} x compaction {record, streaming}; thorough adds out-of-order files "
+         "per merge, streaming self-merge, compressed chunk metas); reads per compared step: unbounded range x 7 field subsets x asc/desc x "
+         "record size {1000, 5}, plus, for every first/last timestamp b of every segment of every file, ranges starting and ending at b-1s, b, "
+         "b+1s and between neighbouring boundaries, each with all fields and one rotating proper subset, asc and desc; plus two volume cases "
+         "under product defaults (max-rows-per-segment=8, > 65535 segments of one series in one full compaction). evaluations = compared "
+         "steps (narrow) + compared histories (wide); distinct_nontrivial = distinct (knobs, logical content, layout shape incl. per-chunk "
+         "segment counts per file and meta-index item)",
+    assumptions=["one shard, TSSTORE engine; narrow: 2 series, 4 timestamps, 3 typed fields; wide: 3 series, 32 timestamps, 3 typed fields with nulls",
+                 "level compaction group size set to 2 and 8-row segments (smallest legal segment size) so that short histories reach every layout",
+                 "background compaction worker and time-based flush disabled for determinism (their effects are explicit ops)",
+                 "wide: segment limit 2 through the product's setter (never called by the product itself: a deployed store has 65535, crossed "
+                 "by the two volume cases); file size limit and chunk metas per index item through accessors (no setter reaches small values; "
+                 "equivalent layouts arise with large chunks / chunk metas); MS = the merge scheduler's 'full' plan, i.e. merge-self-only stores",
+                 "wide: the two calls meant to recover a panic of a compaction / merge are made effective by an overlay (as the tree stands they "
+                 "recover nothing and the panic would end the worker)",
+                 "wide: field subsets on bounded ranges are a rotating representative (all fields + 1 of the 6 proper subsets per range and order)"],
 )
 CLAIMED = True
 MANIFEST = dict(
     level="exploration", engine="seqx",
-    technique="bounded exhaustive exploration of operation histories on the real shard with a last-write-wins reference model compared after every step",
-    text="All histories up to the depth bound over writes (fresh, partial-field, overwrite, late, duplicate-in-batch, two measurements) "
-         "and reorganisations are run on a real shard; every read shape is compared with the reference after each step.",
-    note="Trusts the harness' reference map and dump routine; bounded universe; single shard; no concurrency (see C04).",
+    technique="bounded exhaustive exploration of operation histories on the real shard with a last-write-wins reference model compared after every step, "
+              "in a 4-timestamp universe and in a universe wide enough to cross the engine's size thresholds under an enumerated set of knob settings",
+    text="All histories up to the depth bounds over writes (fresh, partial-field, overwrite, late, duplicate-in-batch, two measurements; in the wide stage "
+         "range batches of 6..48 rows over 3 series with nulls, descending and shuffled batches) and reorganisations (flush, level / full compaction in "
+         "record and streaming mode, out-of-order merge, merge of out-of-order files among themselves, reopen) are run on a real shard; every read shape "
+         "(time ranges ending before / on / after every segment and file boundary, field subsets, both orders, two record sizes) is compared with the reference.",
+    note="Trusts the harness' reference map and dump routine; bounded universes; single shard; no concurrency (see C04); thresholds crossed: rows per "
+         "segment, segments per chunk, files per chunk, chunk metas per index item, record vs streaming compaction, rows per returned record, memtable "
+         "buffers of 20..48 unsorted rows; not crossed: 8 GiB / 1 MiB file size by volume, 128 MiB streaming threshold, memtable size limit.",
 )
